@@ -83,12 +83,17 @@ structure W where
   f : State
   gc : Nat := 0
   made : Option (String × String) := none   -- (hash of the last publisher-made block, head it was built on)
+  r : State := { cfg := default }            -- C08: node restarted from a crash state
+  snaps : List State := []                   -- C08: F's state at every commit boundary
+  genesis : State := { cfg := default }      -- C08: F's state right after the genesis commit
+  c8 : Bool := false
 deriving Inhabited
 
 def emptyCfg : Cfg := { arb := false, unconfirmed := ⟨2, 0, 0⟩, create := ⟨2, 0, 0⟩, user := ⟨2, 0, 0⟩, maxBlock := 0, locked := [] }
 
-def getNode (w : W) (n : String) : State := if n == "P" then w.p else w.f
-def setNode (w : W) (n : String) (s : State) : W := if n == "P" then { w with p := s } else { w with f := s }
+def getNode (w : W) (n : String) : State := if n == "P" then w.p else if n == "R" then w.r else w.f
+def setNode (w : W) (n : String) (s : State) : W :=
+  if n == "P" then { w with p := s } else if n == "R" then { w with r := s } else { w with f := s }
 
 def code (r : R α) : String := match r with | .ok _ => "ok" | .error e => e
 
@@ -142,13 +147,28 @@ def c03Block (s : State) (b : Block) : List String :=
         if nat ≥ 2^64 then (if acc.contains "C03[outhours-wrap]" then acc else acc ++ ["C03[outhours-wrap]"])
         else if nat > hin then acc ++ ["C03[hours-created]"] else acc) []
 
-def step (w : W) (op impl : String) : W × String × Verdict :=
+def step1 (w : W) (op impl : String) : W × String × Verdict :=
   let secs := sections impl
   let pre := " ".intercalate (annPrefix secs)
   let pre' := if pre.isEmpty then "" else pre ++ " "
   let implRes := implResult secs
   let implDs := implDigests secs
   match op.splitOn " " with
+  | ["c8fork", k, _] =>
+    -- every crash state at boundary k (the boundary file itself, or that file plus any prefix of the next
+    -- commit's page writes, torn meta page included) must open as the state after k commits;
+    -- visor.New + Init then create the genesis block if missing and remove invalid pool entries
+    let base := w.snaps.getD (natOf k) w.genesis
+    let s' := if base.chain.isEmpty then w.genesis else restart base
+    let w' := { w with r := s' }
+    let expected := "Rok Cok " ++ digest s'
+    let (m, v) := finish w' impl expected (implDs.getD 0 "") (digest s') implRes "ok"
+    (w', m, if v matches .hold then .hold else .fail)
+  | ["c8same"] =>
+    let expected := "Rok " ++ digest w.r ++ " " ++ digest w.f
+    let same := implDs.getD 0 "a" == implDs.getD 1 "b"
+    if expected == impl && same then (w, impl, .hold)
+    else (w, expected ++ " #props:" ++ (if same then "" else "C08[restarted-node-diverges]"), if same then .unknown else .fail)
   | "reset" :: args =>
     let m := args.filterMap fun a => match a.splitOn "=" with | [k, v] => some (k, natOf v) | _ => none
     let g (k : String) : Nat := match m.find? (·.1 == k) with | some (_, v) => v | none => 0
@@ -281,6 +301,31 @@ def step (w : W) (op impl : String) : W × String × Verdict :=
         else (w', " ".intercalate before ++ " Rok txns=" ++ "+".intercalate (txns.map (·.hash)) ++ s!" fee={fee} size={sizeSum} #props:C05", .fail)
     else (w, "bad-op", .unknown)
   | _ => (w, "bad-op", .unknown)
+
+/-- C08 bookkeeping: in crash mode the harness appends ` S<n>` (number of commit-boundary snapshots of F
+so far); it is stripped before the comparison and used to record F's state per boundary: an operation's
+intermediate commits (CreateBuckets / index+history initialisation inside a restart) do not change the
+logical state, its last commit yields the state after the operation. -/
+def step (w : W) (op impl : String) : W × String × Verdict :=
+  let secs := impl.splitOn " "
+  match secs.getLast? with
+  | some last =>
+    if last.startsWith "S" && (last.drop 1).toString.toNat?.isSome then
+      let n := natOf (last.drop 1).toString
+      let impl' := " ".intercalate secs.dropLast
+      let before := w.f
+      let isBegin := op.startsWith "c8begin"
+      let op1 := if isBegin then "reset" ++ (op.drop 7).toString else op
+      let (w1, m, v) := step1 w op1 impl'
+      let w' := if isBegin then { w1 with c8 := true, genesis := w1.f, snaps := [] } else w1
+      let missing := n - w'.snaps.length
+      let snaps := if missing == 0 then w'.snaps
+        else if isBegin then List.replicate (missing - 1) ({ cfg := w'.f.cfg } : State) ++ [w'.f]
+        else w'.snaps ++ List.replicate (missing - 1) before ++ [w'.f]
+      let m' := if m == impl' then impl else m
+      ({ w' with snaps := snaps }, m', v)
+    else step1 w op impl
+  | none => step1 w op impl
 
 end Sky.Ledger.Drv
 
